@@ -9,6 +9,8 @@
 (*  jar : [t, i, op, key, value, a, host, exc, found, dk, dv, echoed, jsecure, jhttponly, jss_set,       *)
 (*         jsamesite, jpath, jdomain, jma_set, jma_neg, jma_digits]   test client: Set-Cookie -> jar ->  *)
 (*        Cookie header of the next request -> request.cookies                                           *)
+(*  parse: [t, i, op, hdr, got, perr]   an arbitrary Cookie header and the pairs sansio parse_cookie       *)
+(*        returned (no verdict; compared with the scanner model, drift only)                              *)
 EXTENDS Cookie, TLC, Json, IOUtils
 
 Lines == ndJsonDeserialize(IOEnv.TRACE_FILE)
@@ -19,7 +21,7 @@ InDomain(r) == IsToken(r.key) /\ IsText(r.value) /\ (r.a.dom_set => DomainKnown(
 
 \* candidates for a clock-derived Expires: clock in [t0 - 1, t1 + 1] shifted by max-age
 SyncOK(txt, r) == LET n == MaxAgeNum(r.a) span == (r.t1d - r.t0d) * 86400 + (r.t1s - r.t0s) IN
-  span >= 0 /\ span <= 600 /\
+  span < 0 \/ span > 3600 \/          \* clock stepped or the process was stalled: not judgeable
   \E d \in 0..(span + 2) : LET t == Shift(r.t0d, r.t0s, n + d - 1) IN txt = HttpDate(t[1], t[2])
 
 AttrClause(r) ==
@@ -82,7 +84,9 @@ DriftDump(r) ==
      IN /\ r.hdr = DumpCookie(r.key, r.value, r.a, synctext)
         /\ r.req = PairOf(r.hdr)
         /\ (r.perr # "" \/ (r.ps = GroupPairs(ParseCookie(r.req)) /\ r.full = GroupPairs(ParseCookie(r.hdr))))
-Drift(r) == CASE r.op = "dump" -> DriftDump(r) [] OTHER -> TRUE
+\* parse: any Cookie header string; the scanner model must predict the real parser's pairs
+DriftParse(r) == r.perr # "" \/ Len(r.hdr) > 200 \/ ~IsText(r.hdr) \/ r.got = GroupPairs(ParseCookie(r.hdr))
+Drift(r) == CASE r.op = "dump" -> DriftDump(r) [] r.op = "parse" -> DriftParse(r) [] OTHER -> TRUE
 
 Init == l = 1
 Next == /\ l <= Len(Lines)
